@@ -136,7 +136,7 @@ func refRequest(protocol, codec string, streamingCT bool, hdr http.Header, body 
 	return valid, ""
 }
 
-var badTimeoutsGRPC = []string{"5", "S", "5s", "5X", "1.5S", " 5S", "5 S", "123456789S", "99999999999999999999S", "0x5S", "5S5", "٣S", "５S"}
+var badTimeoutsGRPC = []string{"5", "S", "5s", "5X", "1.5S", " 5S", "5 S", "123456789S", "123456789H", "999999999H", "100000000M", "99999999999999999999S", "0x5S", "5S5", "٣S", "５S"}
 var badTimeoutsConnect = []string{"abc", "1e3", "1.5", " 5", "5 ", "12345678901", "0x10", "５", "5ms"}
 
 func genRequest(r *rand.Rand, protocol, codec string, kind svc.Kind) *hostileReq {
@@ -374,6 +374,7 @@ func c07(run *ev.Run) int {
 		}
 	})
 	c07LongTokens(run)
+	c07CustomCodecs(run)
 	c07OpenBody(run, corp)
 	// declared-length lies (Content-Length unrelated to the body)
 	declaredLengthHandler(run, "c07", 1<<20, func(key string, hl *svc.HLog, res *wire.Result, panicked any, hung bool, _ uint64, detail map[string]any) {
@@ -743,6 +744,91 @@ func c07LongTokens(run *ev.Run) {
 					}
 					if d.Err == nil {
 						run.Violation(key+"/accepted", "an undecodable request was answered with success", detail)
+					}
+				}
+			}
+		}
+	}
+}
+
+// c07CustomCodecs: handlers with user-registered codecs whose names are not
+// lower-case words ("Custom", "x.Y-z_1"). Requests that name such a codec -
+// spelled as registered, or in another case - with valid, truncated and garbage
+// bodies: no panic, a well-formed answer, user code at most once, and a valid
+// request spelled as registered is served.
+func c07CustomCodecs(run *ev.Run) {
+	names := []string{"Custom", "x.Y-z_1", "UPPER"}
+	hopts := []connect.HandlerOption{connect.WithReadMaxBytes(c07ReadMax)}
+	for _, n := range names {
+		hopts = append(hopts, connect.WithCodec(namedCodec{n}))
+	}
+	reg := svc.NewRegistry()
+	reg.Default = drainProgram()
+	hs := svc.Handlers(reg, hopts...)
+	msg, _ := proto.Marshal(gen.New(77, 40, true))
+	for _, n := range names {
+		for _, spelled := range []string{n, strings.ToLower(n), strings.ToUpper(n)} {
+			for _, protocol := range svc.Protocols {
+				for _, kind := range svc.Kinds {
+					for _, shape := range []string{"valid", "truncated", "garbage", "empty"} {
+						key := fmt.Sprintf("c07/custom-codec/%s/%s/%s/%s/%s", n, spelled, protocol, kind, shape)
+						if !run.Want(key) {
+							continue
+						}
+						stream := !(protocol == "connect" && kind == svc.Unary)
+						var body []byte
+						switch shape {
+						case "valid":
+							body = msg
+						case "truncated":
+							body = msg[:len(msg)/2]
+						case "garbage":
+							body = []byte("\xff\xff\xff\xff\x0f not a message")
+						}
+						if stream && shape != "empty" {
+							body = refcodec.AppendFrame(nil, 0, body)
+						}
+						hdr := http.Header{"Content-Type": {contentType(protocol, spelled, kind)}}
+						if protocol == "grpc" {
+							hdr.Set("Te", "trailers")
+						}
+						call := reg.New("cc", drainProgram())
+						hdr.Set(wire.CallHeader, call.ID)
+						rw := wire.NewRecorder()
+						var panicked any
+						ok, _ := watchdog(20*time.Second, func() {
+							defer func() { panicked = recover() }()
+							hs[kind].ServeHTTP(rw, wire.ServerRequest(context.Background(), "POST", kind.Path(), hdr, &wire.ScriptedBody{Data: body}, 2))
+						})
+						reg.Drop(call)
+						run.Count("requests", 1)
+						run.Count("custom_codec.requests", 1)
+						run.Eval(fmt.Sprintf("custom-codec|%s|%s|%s|exact=%v", protocol, kind, shape, spelled == n))
+						detail := map[string]any{"registered": n, "content_type": hdr.Get("Content-Type"), "protocol": protocol, "kind": kind.String(), "body": shape}
+						switch {
+						case !ok:
+							run.Violation(key+"/hang", "ServeHTTP did not return", detail)
+							continue
+						case panicked != nil:
+							run.Violation(key+"/panic", fmt.Sprintf("ServeHTTP panicked: %v", panicked), detail)
+							continue
+						case call.Log.Invocations > 1:
+							run.Violation(key+"/invoked-twice", "user code ran more than once for one request", detail)
+							continue
+						}
+						res := rw.Finish()
+						detail["status"] = res.Status
+						if res.Status == 0 {
+							run.Violation(key+"/no-response", "ServeHTTP returned without writing a response", detail)
+							continue
+						}
+						if spelled == n && shape == "valid" {
+							d := refcodec.DecodeResponse(protocol, stream, res.Status, res.Header, res.Body, res.Trailer, svc.RefAlgos())
+							if call.Log.Invocations != 1 || d.Err != nil || len(d.Problems) > 0 {
+								detail["problems"], detail["error"] = d.Problems, d.Err
+								run.Violation(key+"/valid-not-served", "a valid request naming a registered codec exactly was not served", detail)
+							}
+						}
 					}
 				}
 			}
